@@ -66,11 +66,17 @@ def body(shape, name, k, edit=None):
     if shape == "typeswitch":
         return ("func %s(v interface{}, a int) int {\n%s\tswitch x := v.(type) {\n\tcase int:\n\t\treturn x %s a\n\tcase string:\n\t\treturn len(x) + %d\n\tcase []int:\n\t\treturn len(x)\n\t}\n\treturn %d\n}\n"
                 % (name, extra, op, k2, k))
+    if shape == "hoistchain":      # loop-invariant pure builtin calls, the dependent one in another block
+        return ("func %s(xs []int, k int, n int) int {\n\ta := 0\n%s\tfor i := 0; i < n; i++ {\n\t\tl := len(xs)\n\t\tif i%%2 == 0 {\n\t\t\tb := min(l, k)\n\t\t\tc := max(b, %d)\n\t\t\ta = a %s (b + c)\n\t\t} else if i%%3 == 0 {\n\t\t\ta += cap(xs) + min(l, %d)\n\t\t}\n\t\ta += l\n\t}\n\treturn a\n}\n"
+                % (name, extra, k2, op, k + 1))
+    if shape == "selectmulti":
+        return ("func %s(c1, c2 chan int, q chan struct{}, a int) int {\n%s\tfor {\n\t\tselect {\n\t\tcase v := <-c1:\n\t\t\ta = a %s v\n\t\tcase c2 <- a:\n\t\t\ta += %d\n\t\tcase <-q:\n\t\t\treturn a\n\t\tdefault:\n\t\t\tif a > 100 {\n\t\t\t\treturn %d\n\t\t\t}\n\t\t\ta++\n\t\t}\n\t}\n}\n"
+                % (name, extra, op, k2, k))
     raise KeyError(shape)
 
 
 SHAPES = ["arith", "arith2", "branch", "loop", "nested", "calls", "netcall", "rangeloop", "closure", "deferpanic",
-          "goroutine", "switch", "strbuild", "fmtcall", "twoloops", "typeswitch"]
+          "goroutine", "switch", "strbuild", "fmtcall", "twoloops", "typeswitch", "hoistchain", "selectmulti"]
 
 
 def method_body(shape, recv, name, k, edit=None):
